@@ -791,6 +791,17 @@ pub fn gen_c08(thorough: bool, seed: u64) -> Vec<Episode> {
                 ops.push(rel(0, 1, f));
                 ops.push(rel(1, 0, f));
             }
+            // the same stored words under two sizes: the smaller function padded, and the constants
+            let small = n1.min(n2);
+            let c = random_on(small, &mut r);
+            for (ta, tb) in [(c.clone(), c.clone()), (vec![], vec![]), ((0..dom(small)).collect::<Vec<usize>>(), (0..dom(small)).collect::<Vec<usize>>())] {
+                ops.push(load(2, n1, &ta));
+                ops.push(load(3, n2, &tb));
+                for f in REL_FORMS {
+                    ops.push(rel(2, 3, f));
+                    ops.push(rel(3, 2, f));
+                }
+            }
             eps.push(Episode { n: n1, tys: "lut", ops });
         }
     }
@@ -1082,6 +1093,30 @@ pub fn gen_c09(thorough: bool, seed: u64) -> Vec<Episode> {
             let ops: Vec<Value> = chunk.iter().map(|s| from_hex(0, n, s)).collect();
             eps.push(Episode { n, tys: "both", ops });
         }
+    }
+    // every single-byte character (0..=127) in place of one digit of a valid string: only the 22 hex digits may pass
+    for n in [2usize, 4, 7] {
+        let w = hex_width(n);
+        let mut ops = Vec::new();
+        for b in 0u8..128 {
+            let mut sv = valid_hex(n, &mut r);
+            let pos = (b as usize * 7) % w;
+            sv[pos] = b;
+            ops.push(from_hex(0, n, &sv));
+        }
+        eps.push(Episode { n, tys: tys_for(n), ops });
+    }
+    // a formatting call that fails half-way (a bounded sink), then the other entry points on other tables
+    for n in [0usize, 3, 6, 7, 9, 12] {
+        let t = structured(n, &mut r);
+        let mut ops = vec![load(0, n, &t[r.gen_range(0..t.len())]), load(1, n, &random_on(n, &mut r))];
+        for (k, f) in ["display", "lowerhex", "binary"].iter().enumerate() {
+            ops.push(json!({"op": "text_fail", "a": 0, "f": f, "limit": 2 + 3 * k}));
+            for g in TEXT_FORMS {
+                ops.push(json!({"op": "text", "a": 1, "f": g}));
+            }
+        }
+        eps.push(Episode { n, tys: tys_for(n), ops });
     }
     eps
 }
@@ -1958,6 +1993,11 @@ pub fn gen_c19(thorough: bool, _seed: u64) -> Vec<Episode> {
         if thorough || n % 2 == 0 || n == 7 {
             eps.push(Episode { n, tys: "both", ops: vec![json!({"op": "rand_begin", "n": n, "threads": if n % 4 == 0 { 2 } else { 1 }, "count": 256, "inter": other})] });
         }
+    }
+    // threads that have drawn very different amounts before the batch (0, 1100, 2200, ... tables of the same size)
+    for n in if thorough { vec![8usize, 10, 11, 12] } else { vec![10usize, 12] } {
+        eps.push(Episode { n, tys: "both", ops: vec![json!({"op": "rand_begin", "n": n, "threads": 4, "count": 256, "skew": 1100 * (1usize << (12 - n))})] });
+        eps.push(Episode { n, tys: if n % 4 == 0 { "lut" } else { "lutn" }, ops: vec![json!({"op": "rand_begin", "n": n, "threads": 3, "count": 256, "skew": 1500 * (1usize << (12 - n))})] });
     }
     if thorough {
         for n in [13usize, 14] {
